@@ -139,6 +139,25 @@ struct Ctx
    bool quietUsed;
 };
 
+// a quiet SETDATA / REMOVEDATA of session K: the mirror oracle stays applicable for the clients none of whose subscription
+// paths reaches below K's session node (quiet_frame); the sender itself and everybody who can see it are out
+static void QuietBy(Ctx & c, int K)
+{
+   W & w = *c.w;
+   c.cs[K].tainted = true;
+   const std::string idStr = itos((long)w.RealID(K));
+   for (size_t ci=0; ci<c.cs.size(); ci++) if ((int)ci != K)
+   {
+      for (std::map<std::string,std::string>::const_iterator it = c.cs[ci].subflt.begin(); it != c.cs[ci].subflt.end(); ++it)
+      {
+         std::vector<std::string> cl = Split(it->first, '/');
+         if (cl.size() < 2) continue;
+         StringMatcher m0(cl[0].c_str()), m1(cl[1].c_str());
+         if ((m0.Match("_unknown_"))&&(m1.Match(idStr.c_str()))) {c.cs[ci].tainted = true; break;}
+      }
+   }
+}
+
 // builds the protocol Message of one (sub-)command; fs = fields after the session index
 static MessageRef BuildCommand(Ctx & c, int K, const std::string & code, const std::vector<std::string> & fs, std::vector<std::string> & unsubbed)
 {
@@ -147,7 +166,7 @@ static MessageRef BuildCommand(Ctx & c, int K, const std::string & code, const s
    {
       MessageRef m = MkMsg(PR_COMMAND_SETDATA);
       const uint32 flags = (fs.size() > 0) ? (uint32) atol(fs[0].c_str()) : 0;
-      if (flags & (1u<<SETDATANODE_FLAG_QUIET)) c.quietUsed = true;
+      if (flags & (1u<<SETDATANODE_FLAG_QUIET)) QuietBy(c, K);
       std::vector<std::string> items = (fs.size() > 1 && !fs[1].empty()) ? Split(fs[1], '&') : std::vector<std::string>();
       for (size_t i=0; i<items.size(); i++)
       {
@@ -166,7 +185,7 @@ static MessageRef BuildCommand(Ctx & c, int K, const std::string & code, const s
       size_t at = 0;
       if (code == "r")
       {
-         if ((fs.size() > 0)&&(fs[0] == "1")) {(void) m()->AddBool(PR_NAME_REMOVE_QUIETLY, true); c.quietUsed = true;}
+         if ((fs.size() > 0)&&(fs[0] == "1")) {(void) m()->AddBool(PR_NAME_REMOVE_QUIETLY, true); QuietBy(c, K);}
          at = 1;
       }
       std::vector<std::string> pats = (fs.size() > at && !fs[at].empty()) ? Split(fs[at], '&') : std::vector<std::string>();
